@@ -37,6 +37,9 @@ pub struct Known {
     pub source_names: BTreeSet<String>,
     /// the kernel-module subset (library constant `MODULES_LKM` ∩ known checks)
     pub lkm: BTreeSet<String>,
+    /// checks outside that subset which nevertheless run on a kernel module with the shipped
+    /// `lkm_config.json` (they do not read their configuration); found by probing the build
+    pub lkm_selectable: BTreeSet<String>,
 }
 
 /// Warning names a check may emit besides its own name (documented in the checks' module docs).
